@@ -160,6 +160,22 @@ def analyse(ctx, prop, cfg, res, oracle):
             case, static, trace = info["case"], info["static"], info["trace"]
             tag = {"wholerun": {"cfg_seed": cfg.get("_verif_seed"), "program": tr["prog"], "sim": tr["sim"], "method": m}}
             case = dict(case, **tag)
+            mcfg = (cfg.get("methods") or {}).get(m, {})
+            if prop == "C06" and mcfg:
+                want = mcfg.get("crew_count", 0)
+                if mcfg.get("deployment_type") == "mobile" and want and case["crews"] != want:
+                    ctx.violate("C06:wholerun:deployed-crews-differ-from-configured",
+                                f"method {m}: crew_count {want} configured, the schedule was built with {case['crews']} crews",
+                                {"wholerun": tag["wholerun"], "case": {"wholerun": tag["wholerun"]}})
+                yrs = mcfg.get("years") or []
+                for st in static:
+                    exp = sorted(yrs) if yrs else sorted(st["sim_years"])
+                    if sorted(st["dep_years"]) != exp:
+                        ctx.violate("C06:wholerun:planner-deployment-years-differ-from-configuration",
+                                    f"method {m} site {st['site']}: configured years {yrs}, simulated {st['sim_years']}, "
+                                    f"planner holds {st['dep_years']}",
+                                    {"wholerun": tag["wholerun"], "case": {"wholerun": tag["wholerun"]}})
+                        break
             if case["kind"] == "followup":
                 followup_oracle(ctx, prop, tag["wholerun"], m, info)
                 continue
